@@ -702,6 +702,9 @@ def gen_stage():
                  and ast.unparse(after_get[0].handlers[0].body[-1]) == "error_event.set()"
                  and not any(isinstance(n, (ast.Break, ast.Return, ast.Raise)) for n in ast.walk(after_get[0].handlers[0])))
         ev_created = any(ast.unparse(x) == "error_event = mp.Event()" for x in stmts)
+        # the parent has no exception handler of its own: an error raised by the item source (an input that cannot be
+        # loaded, a failing generator) propagates to the caller
+        unguarded = not any(isinstance(n, (ast.Try, ast.ExceptHandler)) for x in stmts for n in ast.walk(x))
         nput = sum(ast.unparse(s).count(f"{qname}.put(") for s in stmts)
         shape = _worker_shape(w, qname)
         shapes[short] = shape
@@ -710,7 +713,9 @@ def gen_stage():
         out += f"def {short}_capacity_per_worker : Nat := {m.group(1)}\n"
         out += f"/-- {work}: where the shutdown flag is read relative to the queue poll -/\ndef {short}_flag_first : Bool := {'true' if shape == 'flag-first' else 'false'}\n"
         out += (f"/-- {work} catches an exception from the per-item work, sets the shared error event and continues its loop;\n{prod} raises after joining the workers when the event is set -/\n"
-                f"def {short}_reports_errors : Bool := {'true' if (wraps and reports and ev_created) else 'false'}\n\n")
+                f"def {short}_reports_errors : Bool := {'true' if (wraps and reports and ev_created) else 'false'}\n"
+                f"/-- {prod} contains no `try`: an exception raised while it obtains the next item (e.g. an input image that cannot be loaded) reaches the caller -/\n"
+                f"def {short}_producer_unguarded : Bool := {'true' if unguarded else 'false'}\n\n")
     allff = all(v == "flag-first" for v in shapes.values())
     out += f"/-- all four hand-off workers read the flag *before* polling the queue and act on that reading when the poll comes back empty -/\ndef flag_first : Bool := {'true' if allff else 'false'}\n"
     out += "\nend Stage\nend Gen\n"
@@ -1129,8 +1134,14 @@ def gen_filter():
             "`false`: `ceil(span)` samples, i.e. gaps of up to two pixels -/\n"
             f"def refine_gap_at_most_one_pixel : Bool := {'true' if all(plus_one) else 'false'}\n")
     ibsrc = ast.unparse(ib_)
-    pole = "for pole_lat in (-90.0, 90.0):" in ibsrc and "lat_max = 90 * D2R" in ibsrc and "lat_min = -90 * D2R" in ibsrc
-    out += f"/-- a celestial pole that projects into the image sets the corresponding latitude bound to ±π/2 -/\ndef pole_inside_sets_bound : Bool := {'true' if pole else 'false'}\n"
+    pole = ("for pole_lat in (-90.0, 90.0):" in ibsrc and "lat_max = 90 * D2R" in ibsrc and "lat_min = -90 * D2R" in ibsrc
+            # the pole's pixel position is tested against the image: x against the first FITS axis, y against the second,
+            # with `naxis2, naxis1 = shape[:2]` (rows, columns)
+            and "(naxis2, naxis1) = self._image.shape[:2]" in ibsrc.replace("naxis2, naxis1 = self._image.shape[:2]", "(naxis2, naxis1) = self._image.shape[:2]")
+            and "if 0.5 <= pole_pix[0] <= naxis1 + 0.5 and 0.5 <= pole_pix[1] <= naxis2 + 0.5:" in ibsrc
+            and "pole_pix = self._wcs.wcs_world2pix([[0.0, pole_lat]], 1)[0]" in ibsrc)
+    out += ("/-- a celestial pole that projects into the image — its pixel x within [0.5, naxis1 + 0.5] and y within [0.5, naxis2 + 0.5], the\n"
+            f"pixel-corner box of the image — sets the corresponding latitude bound to ±π/2 -/\ndef pole_inside_sets_bound : Bool := {'true' if pole else 'false'}\n")
     out += "\nend Filter\nend Gen\n"
     return out
 
